@@ -1,5 +1,6 @@
 import NitroVerif.Model.Opt
 import NitroVerif.Spec.Opt
+import NitroVerif.Lemmas.OptTok
 
 /-! Lemmas about the option-parser model and specification. -/
 namespace NitroVerif.Opt
@@ -7,21 +8,6 @@ namespace NitroVerif.Opt
 /-- Long names of the value-taking options are pairwise distinct (the declaration API guarantees
 it: Props/C13). -/
 def WFNames (d : Decl) : Prop := ((valueOpts d).map (·.1)).Nodup
-
-/-- the text behind a split point -/
-def eqTail : Option Str → Str
-  | some v => '=' :: v
-  | none => []
-
-theorem splitEq_join (tok : Str) : (splitEq tok).1 ++ eqTail (splitEq tok).2 = tok := by
-  induction tok with
-  | nil => simp [splitEq, eqTail]
-  | cons c cs ih =>
-    unfold splitEq
-    by_cases hc : c = '='
-    · subst hc; simp [eqTail]
-    · simp only [hc, if_false]
-      simpa using ih
 
 theorem find?_name_letter (l : List (Str × Option Char)) (hn : (l.map (·.1)).Nodup) (c : Char) (n : Str)
     (h : (l.find? (·.2 == some c)).map (·.1) = some n) :
@@ -57,120 +43,100 @@ theorem letterOf_of_valueOptOfLetter (d : Decl) (h : WFNames d) (c : Char) (n : 
     (hv : valueOptOfLetter d c = some n) : letterOf d n = some c :=
   find?_name_letter (valueOpts d) h c n hv
 
+theorem explainValue_render (d : Decl) (head : Str) (n : Str) (short : Bool) (value next : Option Str)
+    (hsp : spell d n short = head) (it : Item) (consumed : Bool)
+    (he : explainValue n short value next = some (it, consumed)) :
+    (consumed = false → renderItem d it = [head ++ eqTail value]) ∧
+    (consumed = true → ∃ nx, next = some nx ∧ renderItem d it = [head ++ eqTail value, nx]) := by
+  unfold explainValue at he
+  cases value with
+  | some v =>
+    simp only [Option.some.injEq, Prod.mk.injEq] at he
+    obtain ⟨rfl, rfl⟩ := he
+    exact ⟨fun _ => by simp [renderItem, hsp, eqTail], fun hc => by simp at hc⟩
+  | none =>
+    simp only at he
+    cases next with
+    | none => simp at he
+    | some nx =>
+      simp only at he
+      split at he
+      · simp only [Option.some.injEq, Prod.mk.injEq] at he
+        obtain ⟨rfl, rfl⟩ := he
+        exact ⟨fun hc => by simp at hc, fun _ => ⟨nx, rfl, by simp [renderItem, hsp, eqTail]⟩⟩
+      · simp at he
+
 /-- What `explainTok` returns spells back to the token(s) it was given. -/
 theorem explainTok_render (d : Decl) (h : WFNames d) (tok : Str) (next : Option Str) (it : Item)
     (consumed : Bool) (he : explainTok d tok next = some (it, consumed)) :
     (consumed = false → renderItem d it = [tok]) ∧
     (consumed = true → ∃ nx, next = some nx ∧ renderItem d it = [tok, nx]) := by
   unfold explainTok at he
-  split at he
-  · simp at he
-  · have hj := splitEq_join tok
-    generalize splitEq tok = sp at he hj
-    obtain ⟨name, value⟩ := sp
-    simp only at he hj
-    split at he
-    · -- long form
-      rename_i n
+  cases hsh : shapeOf tok with
+  | none => simp [hsh] at he
+  | some sh =>
+    cases sh with
+    | long n v =>
+      simp only [hsh] at he
+      have htok := (shapeOf_long hsh).1
+      unfold explainLong at he
       split at he
-      · cases value with
-        | some v =>
-          simp only [Option.some.injEq, Prod.mk.injEq] at he
-          obtain ⟨rfl, rfl⟩ := he
-          refine ⟨fun _ => ?_, fun hc => by simp at hc⟩
-          simp only [renderItem, spell, dashes, Bool.false_eq_true, if_false]
-          rw [← hj]; simp [eqTail]
-        | none =>
-          simp only at he
-          cases next with
-          | none => simp at he
-          | some nx =>
-            simp only at he
-            split at he
-            · simp only [Option.some.injEq, Prod.mk.injEq] at he
-              obtain ⟨rfl, rfl⟩ := he
-              refine ⟨fun hc => by simp at hc, fun _ => ⟨nx, rfl, ?_⟩⟩
-              simp only [renderItem, spell, dashes, Bool.false_eq_true, if_false]
-              rw [← hj]; simp [eqTail]
-            · simp at he
+      · have := explainValue_render d ('-' :: '-' :: n) n false v next (by simp [spell, dashes]) it consumed he
+        rw [htok]; simpa using this
       · split at he
         · split at he
           · simp at he
           · rename_i hv
             simp only [Option.some.injEq, Prod.mk.injEq] at he
             obtain ⟨rfl, rfl⟩ := he
-            refine ⟨fun _ => ?_, fun hc => by simp at hc⟩
-            have : value = none := by cases value <;> simp_all
+            have : v = none := by cases v <;> simp_all
             subst this
-            simp only [renderItem, dashes]
-            rw [← hj]; simp [eqTail]
+            exact ⟨fun _ => by rw [htok]; simp [renderItem, dashes, eqTail], fun hc => by simp at hc⟩
         · split at he
           · rename_i hp
             split at he
             · simp at he
-            · simp only [Option.some.injEq, Prod.mk.injEq] at he
+            · rename_i hv
+              simp only [Option.some.injEq, Prod.mk.injEq] at he
               obtain ⟨rfl, rfl⟩ := he
-              refine ⟨fun _ => ?_, fun hc => by simp at hc⟩
-              have : value = none := by cases value <;> simp_all
+              have : v = none := by cases v <;> simp_all
               subst this
               simp only [Bool.and_eq_true] at hp
-              have hpre := List.isPrefixOf_iff_prefix.mp hp.1
-              obtain ⟨t, ht⟩ := hpre
+              obtain ⟨t, ht⟩ := List.isPrefixOf_iff_prefix.mp hp.1
               have hd : n.drop 3 = t := by rw [← ht]; simp [noPrefix]
-              simp only [renderItem, dashes]
-              rw [← hj, hd, ← ht]; simp [eqTail]
-          · simp at he
-    · -- short form
-      rename_i letters hlong
-      cases value with
-      | some v =>
-        simp only at he
-        split at he
-        · rename_i c
-          cases hvo : valueOptOfLetter d c with
-          | none => simp [hvo] at he
-          | some n =>
-            simp only [hvo, Option.map_some, Option.some.injEq, Prod.mk.injEq] at he
-            obtain ⟨rfl, rfl⟩ := he
-            refine ⟨fun _ => ?_, fun hc => by simp at hc⟩
-            simp only [renderItem, spell, if_true, letterOf_of_valueOptOfLetter d h c n hvo]
-            rw [← hj]; simp [eqTail]
-        · simp at he
-      | none =>
-        simp only at he
-        split at he
-        · rename_i c
-          cases hvo : valueOptOfLetter d c with
-          | some n =>
-            simp only [hvo] at he
-            cases next with
-            | none => simp at he
-            | some nx =>
-              simp only at he
-              split at he
-              · simp only [Option.some.injEq, Prod.mk.injEq] at he
-                obtain ⟨rfl, rfl⟩ := he
-                refine ⟨fun hc => by simp at hc, fun _ => ⟨nx, rfl, ?_⟩⟩
-                simp only [renderItem, spell, if_true, letterOf_of_valueOptOfLetter d h c n hvo]
-                rw [← hj]; simp [eqTail]
-              · simp at he
-          | none =>
-            simp only [hvo] at he
-            split at he
-            · simp only [Option.some.injEq, Prod.mk.injEq] at he
-              obtain ⟨rfl, rfl⟩ := he
               refine ⟨fun _ => ?_, fun hc => by simp at hc⟩
-              simp only [renderItem]
-              rw [← hj]; simp [eqTail]
-            · simp at he
-        · split at he
-          · simp only [Option.some.injEq, Prod.mk.injEq] at he
-            obtain ⟨rfl, rfl⟩ := he
-            refine ⟨fun _ => ?_, fun hc => by simp at hc⟩
-            simp only [renderItem]
-            rw [← hj]; simp [eqTail]
+              rw [htok, hd, ← ht]; simp [renderItem, dashes, eqTail]
           · simp at he
-    · simp at he
+    | short ls v =>
+      simp only [hsh] at he
+      have htok := (shapeOf_short hsh).1
+      unfold explainShort at he
+      split at he
+      · rename_i c
+        cases hvo : valueOptOfLetter d c with
+        | some n =>
+          simp only [hvo] at he
+          have := explainValue_render d ['-', c] n true v next
+            (by simp [spell, letterOf_of_valueOptOfLetter d h c n hvo]) it consumed he
+          rw [htok]; simpa using this
+        | none =>
+          simp only [hvo] at he
+          split at he
+          · rename_i hc
+            simp only [Option.some.injEq, Prod.mk.injEq] at he
+            obtain ⟨rfl, rfl⟩ := he
+            have : v = none := by cases v <;> simp_all
+            subst this
+            exact ⟨fun _ => by rw [htok]; simp [renderItem, eqTail], fun hc => by simp at hc⟩
+          · simp at he
+      · split at he
+        · rename_i hc
+          simp only [Option.some.injEq, Prod.mk.injEq] at he
+          obtain ⟨rfl, rfl⟩ := he
+          have : v = none := by cases v <;> simp_all
+          subst this
+          exact ⟨fun _ => by rw [htok]; simp [renderItem, eqTail], fun hc => by simp at hc⟩
+        · simp at he
 
 theorem explainGo_render (d : Decl) (h : WFNames d) (onlyPos : Bool) (toks : List Str)
     (items : List Item) (he : explainGo d onlyPos toks = some items) : render d items = toks := by
